@@ -410,6 +410,39 @@ def case_trigger_own(case: Dict[str, Any]) -> bool:
 # --------------------------------------------------------------------------------------------
 
 
+_ORDER_ROOT: Optional[Tuple[Path, bool]] = None
+
+
+def order_sensitive_root() -> Tuple[Path, bool]:
+    """A scratch root on which the order of a directory listing depends on the order in which the
+    entries were created (tmpfs does; ext4 with dir_index does not), so that "file creation order" is a
+    factor the oracle really varies.  Falls back to the ordinary scratch root (and says so in evidence)."""
+    global _ORDER_ROOT
+    if _ORDER_ROOT is not None:
+        return _ORDER_ROOT
+    cands = [os.environ.get("VERIF_C10_SCRATCH"), "/dev/shm", str(engine.scratch_root())]
+    for cand in [c for c in cands if c]:
+        try:
+            base = Path(tempfile.mkdtemp(prefix=f"verif-c10-probe-{os.getpid()}-", dir=cand))
+        except OSError:
+            continue
+        try:
+            seen = []
+            for k, order in enumerate((["a", "b", "c", "d", "e"], ["e", "c", "a", "d", "b"])):
+                d = base / f"o{k}"
+                d.mkdir()
+                for n in order:
+                    (d / (n + ".graphql")).write_text("")
+                seen.append([e.name for e in os.scandir(d)])
+            if seen[0] != seen[1]:
+                _ORDER_ROOT = (Path(cand), True)
+                return _ORDER_ROOT
+        finally:
+            shutil.rmtree(base, ignore_errors=True)
+    _ORDER_ROOT = (engine.scratch_root(), False)
+    return _ORDER_ROOT
+
+
 def _run_job(seed: int, order_seed: int, cases: List[Dict[str, Any]], scratch: Path, texts: bool) -> Dict[str, Any]:
     job = scratch / f"job-{seed}-{order_seed}-{common.stable_hash([c['id'] for c in cases])}{'-t' if texts else ''}.json"
     slim = [{k: v for k, v in c.items() if k != "meta"} for c in cases]
@@ -418,6 +451,9 @@ def _run_job(seed: int, order_seed: int, cases: List[Dict[str, Any]], scratch: P
     env["PYTHONHASHSEED"] = str(seed)
     env["PYTHONPATH"] = str(common.REPO)  # the working tree under test first
     env["PYTHONDONTWRITEBYTECODE"] = "1"
+    # every hash seed also gets its own time zone (POSIX form, no tzdata needed): a local-time stamp that
+    # leaks into a file in a non-timestamp comment mode then differs between combos deterministically
+    env["TZ"] = "UTC%+d" % ((seed % 23) - 11)
     try:
         p = subprocess.run([sys.executable, str(SUB), str(job)], capture_output=True, text=True, env=env, timeout=1800, cwd=str(scratch))
     except subprocess.TimeoutExpired as e:
@@ -435,7 +471,7 @@ def _run_job(seed: int, order_seed: int, cases: List[Dict[str, Any]], scratch: P
 def run_matrix(cases: List[Dict[str, Any]], combos: List[Tuple[int, int]], texts: bool = False, chunk: int = 4) -> Dict[Tuple[int, int], Dict[str, Any]]:
     """every case under every (hash seed, creation-order seed) combo -> {combo: {case id: {"fresh":…, "again":…}}}"""
     # own prefix: other checks running at the same time may sweep `ariadne-verif-*`
-    scratch = Path(tempfile.mkdtemp(prefix=f"verif-c10-{os.getpid()}-", dir=engine.scratch_root()))
+    scratch = Path(tempfile.mkdtemp(prefix=f"verif-c10-{os.getpid()}-", dir=order_sensitive_root()[0]))
     try:
         parts = [cases[i : i + chunk] for i in range(0, len(cases), chunk)]
         tasks = [(c, part) for c in combos for part in parts]
@@ -545,34 +581,56 @@ def judge_matrix(ctx: Ctx, res: Result, cases: List[Dict[str, Any]], combos: Lis
             res.count(f"{label}:outcome:generated")
             verdict[cid] = "same"
         res.seen([label, cid, common.stable_hash({k: v for k, v in case.items() if k != "meta"})], nontrivial="error" not in base)
+        if label == "oracle" and "error" not in base and sum(1 for x in res.samples if isinstance(x, dict) and "oracle_case" in x) < 2:
+            q = case.get("queries")
+            res.samples.insert(0, {"oracle_case": cid, "strategy": case["strategy"], "config": case.get("config"), "meta": case.get("meta"),
+                                   "operations_excerpt": (q if isinstance(q, str) else "\n".join(q.values()) if q else "")[:600],
+                                   "combos(hashseed,creation-order)": [list(c) for c in combos], "files": sorted(base)[:40],
+                                   "all_identical": cid not in suspects})
+    if not suspects:
+        return verdict
+    # diagnosis: the deviating cases once more with file TEXTS, under the reference combo and every combo that deviated first
+    by_id = {c["id"]: c for c in cases}
+    first: Dict[str, Dict[str, Tuple[int, int]]] = {}
     for cid, lst in suspects.items():
-        case = [c for c in cases if c["id"] == cid][0]
-        # one diagnosis per (phase kind): texts of the reference and of the first deviating combo, plus the two
-        # single-factor variations to say whether the hash seed or the creation order matters
-        done = set()
         for c, phase in lst:
-            if phase in done:
-                continue
-            done.add(phase)
-            probes = [ref, c, (c[0], ref[1]), (ref[0], c[1])]
-            tx = run_matrix([case], list(dict.fromkeys(probes)), texts=True, chunk=1)
+            first.setdefault(cid, {}).setdefault(phase, c)
+    want = list(dict.fromkeys([ref] + [c for d in first.values() for c in d.values()]))[:6]
+    tx = run_matrix([by_id[cid] for cid in suspects], want, texts=True, chunk=2)
+    probed = 0
+    for cid, phases in first.items():
+        case = by_id[cid]
+        for phase, c in phases.items():
+            if c not in tx:
+                c = next((w for w in want[1:] if tx[w][cid].get(phase) != tx[ref][cid]["fresh"]), want[-1])
             a = tx[ref][cid]["fresh"]
             b = tx[c][cid].get(phase, tx[c][cid].get("fresh"))
-            if a == b:  # not reproducible with the same seeds: flaky environment, not a verdict
-                res.count(f"{label}:unreproducible-difference")
-                ctx.log(f"difference on {cid} {c} {phase} did not reproduce")
+            if a == b:
+                # Two runs of the matrix gave different bytes for the same input, yet repeating them does not:
+                # the output depends on something that is neither hash seed, creation order nor the existing
+                # directory (the clock, typically).  That IS the property failing ("generating twice ... byte-identical").
+                h_ref, h_dev = out[ref][cid].get("fresh", {}), out[first[cid][phase]][cid].get(phase, {})
+                names = sorted(k for k in set(h_ref) | set(h_dev) if h_ref.get(k) != h_dev.get(k))
+                res.count(f"{label}:differs:nondeterministic-bytes")
+                verdict[cid] = "differs:nondeterministic-bytes"
+                res.failures.append(Failure("nondeterministic-bytes", None,
+                                            {"case": {k: v for k, v in case.items() if k != "meta"}, "combos": [list(ref), list(first[cid][phase])], "phase": phase},
+                                            f"sha256 differed between two runs of the matrix but not when both were repeated (time/environment dependent output) in {names[:8]}"))
                 continue
             factor = []
-            if tx[(c[0], ref[1])][cid].get(phase) != a and c[0] != ref[0]:
-                factor.append("hash-seed")
-            if tx[(ref[0], c[1])][cid].get(phase) != a and c[1] != ref[1]:
-                factor.append("creation-order")
             if phase == "again" and tx[ref][cid].get("again") != a:
                 factor.append("existing-target-directory")
+            elif probed < 2 and c != ref:  # separate the two factors that were varied together (first two suspects only)
+                probed += 1
+                fx = run_matrix([case], [(c[0], ref[1]), (ref[0], c[1])], texts=True, chunk=1)
+                if fx[(c[0], ref[1])][cid].get(phase) != a and c[0] != ref[0]:
+                    factor.append("hash-seed")
+                if fx[(ref[0], c[1])][cid].get(phase) != a and c[1] != ref[1]:
+                    factor.append("creation-order")
             sig, trig, detail = classify(case, a, b, phase)
             verdict[cid] = "differs:" + sig
             res.failures.append(Failure(sig, trig, {"case": {k: v for k, v in case.items() if k != "meta"}, "combos": [list(ref), list(c)], "phase": phase},
-                                        f"factor={'+'.join(factor) or 'unknown'} {detail}"))
+                                        f"factor={'+'.join(factor) or 'not-separated'} {detail}"))
             res.count(f"{label}:differs:{sig}")
     return verdict
 
@@ -846,8 +904,15 @@ def corr_plugins(ctx: Ctx, st: Optional[LeanStatus], res: Result) -> None:
     _compare(ctx, st, res, lines, expect)
 
 
-@engine.with_scratch
-def _walk_child(root: Path, entries: List[Dict[str, Any]], order: List[int]) -> Dict[str, Any]:
+def _walk_child(entries: List[Dict[str, Any]], order: List[int], where: str) -> Dict[str, Any]:
+    root = Path(tempfile.mkdtemp(prefix=f"verif-c10-walk-{os.getpid()}-", dir=where))
+    try:
+        return _walk_in(root, entries, order)
+    finally:
+        shutil.rmtree(root, ignore_errors=True)
+
+
+def _walk_in(root: Path, entries: List[Dict[str, Any]], order: List[int]) -> Dict[str, Any]:
     from ariadne_codegen.schema import load_graphql_files_from_path, walk_graphql_files
 
     base = root / "in"
@@ -900,13 +965,13 @@ def corr_walk(ctx: Ctx, st: Optional[LeanStatus], res: Result) -> None:
         o1 = list(range(len(entries)))
         rng.shuffle(o1)
         o2 = list(reversed(o1))
-        jobs.append((entries, o1))
-        jobs.append((entries, o2))
+        jobs.append((entries, o1, str(order_sensitive_root()[0])))
+        jobs.append((entries, o2, str(order_sensitive_root()[0])))
     _quiet()
     outs = engine.pmap_forked(_walk_child, jobs, timeout=60)
     lines: List[Dict[str, Any]] = []
     expect: List[Tuple[str, Any, Any]] = []
-    for k, ((entries, order), (status, val)) in enumerate(zip(jobs, outs)):
+    for k, ((entries, order, _w), (status, val)) in enumerate(zip(jobs, outs)):
         if status != "ok":
             res.mismatches.append(Mismatch("loadFiles", entries, f"observer: {status} {val}", None))
             continue
@@ -1034,6 +1099,10 @@ def _e2e_child(root: Path, case: Dict[str, Any]) -> Dict[str, Any]:
                                           and isinstance(n.value.func, ast.Attribute) and isinstance(n.value.func.value, ast.Name)]}
     out["files"] = files
     out["fragments_module"] = cfg.get("fragments_module_name", "fragments")
+    if pg is not None and outcome.get("ok"):
+        out["package"] = {"unpacked": list(pg._unpacked_fragments), "used_enums": list(pg._used_enums), "include_all_enums": bool(pg.include_all_enums),
+                          "schema_enums": [c.name for c in pg.enums_generator._class_defs],
+                          "enums_module": cfg.get("enums_module_name", "enums")}
     return out
 
 
@@ -1101,6 +1170,13 @@ def corr_e2e(ctx: Ctx, st: Optional[LeanStatus], res: Result, cases: List[Dict[s
                     if P_NOREIMP not in ((case.get("config") or {}).get("plugins") or []):  # that plugin empties __init__.py
                         lines.append({"op": "isortNames", "names": val["module"]["publicNames"]})
                         expect.append(("init-fragments-import", dict(inp_ref, names=val["module"]["publicNames"]), got[0] if got else []))
+        pk = val.get("package")
+        if pk is not None:
+            lines.append({"op": "packageFrag", "fragments": val["all_fragments"], "unpacked": pk["unpacked"]})
+            expect.append(("fragments-module-exists", dict(inp_ref, unpacked=sorted(pk["unpacked"])), {"ok": (val["fragments_module"] + ".py") in val["files"]}))
+            lines.append({"op": "filterEnums", "schemaEnums": pk["schema_enums"], "used": None if pk["include_all_enums"] else pk["used_enums"]})
+            expect.append(("enums-kept", dict(inp_ref, include_all=pk["include_all_enums"]), val["files"].get(pk["enums_module"] + ".py", {}).get("classes", [])))
+            res.count("e2e:enums-filtered" if not pk["include_all_enums"] else "e2e:enums-all")
         for op in val.get("ops", []):
             if not val["outcome"].get("ok"):
                 break
@@ -1226,9 +1302,14 @@ def oracle(ctx: Ctx, res: Result, label: str = "oracle", n_seeds: Optional[int] 
     # hash seed i comes with creation order i; the diagnosis step separates the two factors
     judge_matrix(ctx, res, cases + gs, [(s, s) for s in seeds], label)
     res.extra["hash_seeds"] = len(seeds)
+    res.extra["creation_order_scratch"] = {"root": str(order_sensitive_root()[0]), "listing_depends_on_creation_order": order_sensitive_root()[1]}
+
+
+_RUN_FOUND_UNKNOWN = False
 
 
 def run(ctx: Ctx, st: Optional[LeanStatus]) -> Result:
+    global _RUN_FOUND_UNKNOWN
     res = Result()
     res.rule = ("oracle: each generated (schema, operations, config) case is generated by the real CLI entry in subprocesses under "
                 "8 (quick) / 64 (thorough) PYTHONHASHSEEDs x shuffled creation orders x {fresh, again over the existing target}; "
@@ -1246,6 +1327,8 @@ def run(ctx: Ctx, st: Optional[LeanStatus]) -> Result:
     corr_e2e(ctx, st, res, e2e_cases)
     ctx.log(f"full-generation correspondence done ({len(res.mismatches)} mismatches)")
     oracle(ctx, res)
+    known = common.load_findings("C10")
+    _RUN_FOUND_UNKNOWN = any(common.match_finding(f, known) is None for f in res.failures)
     res.oracle_only += [
         "that CPython's set iteration order is SOME permutation of the elements and that nothing else varies between interpreter runs "
         "(validated by subprocess runs under different PYTHONHASHSEEDs, not proved)",
@@ -1264,6 +1347,9 @@ def search(ctx: Ctx) -> Result:
     """after a broken proof / correspondence: a second, differently seeded oracle sample (a set-order
     dependence shows with probability >= 1/2 per extra hash seed, so 16 seeds are plenty)"""
     res = Result()
+    if _RUN_FOUND_UNKNOWN:  # a concrete failing input is already in hand
+        ctx.log("search skipped: the oracle of this run already produced a failing input")
+        return res
     oracle(ctx, res, "search", n_seeds=16, n_cases=24)
     return res
 
